@@ -51,9 +51,10 @@ class Ctx:
     # ------------------------------------------------------------ finishing
     def finish(self, explanation, assumptions, rule_text, proof=None):
         known = load_known()
+        any_viol = any(o['verdict'] == 'violated' for o in self.obs)
         for rule, (n, why) in self.minimums.items():
             got = self.count(rule)
-            if got < n:
+            if got < n and not any_viol:     # with a violation reported, dependent obligations are legitimately skipped
                 self.cannot(rule, '-', f'only {got} instance(s) of this rule matched, {n} confirmed by hand on the '
                                        f'reference tree ({why}): the rule would pass vacuously')
         viol, knownhits = [], []
